@@ -54,6 +54,9 @@ async fn scenario(sim: Arc<Sim>, unit: Value) -> Obs {
     }
     let mut vc = anemo::Config::default();
     vc.connect_timeout_ms = Some(3_000);
+    // optionally the caller runs with a connection limit that its history already fills:
+    // explicit dials are not subject to it
+    vc.max_concurrent_connections = unit["limit"].as_u64().map(|l| l as usize);
     let v = sim.start(&NodeSpec::new(V).config(vc)).unwrap();
     let x = sim.start(&NodeSpec::new(X)).unwrap();
     let y = sim.start(&NodeSpec::new(Y)).unwrap();
@@ -241,7 +244,7 @@ impl Check for C03 {
         CheckMeta {
             property: "C03",
             level: "fault_enumeration",
-            rule: "caller V, honest X and Y, an impostor replaying X's certificate without X's key, an impostor presenting [own certificate, X's certificate], and a dead address; every single dial (address holder x expected identity in {X, Y, none}), also with X or Y already connected to the caller (inbound or outbound) beforehand, and every pair of dials (all 15 x 15 combinations x start offsets {0, 3, 9, 100} ms, the last one sequential), each explored over datagram fates within the deviation bound across both handshakes; distinct = distinct (holder, outcome) tuples".into(),
+            rule: "caller V, honest X and Y, an impostor replaying X's certificate without X's key, an impostor presenting [own certificate, X's certificate], and a dead address; every single dial (address holder x expected identity in {X, Y, none}), also with X or Y already connected to the caller (inbound or outbound) beforehand, with and without a connection limit of 1 at the caller that this history already fills, and every pair of dials (all 15 x 15 combinations x start offsets {0, 3, 9, 100} ms, the last one sequential), each explored over datagram fates within the deviation bound across both handshakes; distinct = distinct (holder, outcome) tuples".into(),
             assumptions: vec!["three key pairs; the impostor completes whatever handshake the caller lets it complete and sends the acknowledgement".into()],
             exhaustive: true,
         }
@@ -263,6 +266,7 @@ impl Check for C03 {
         for pre in ["x_inbound", "y_inbound", "x_outbound"] {
             for (h, e) in &kinds {
                 u.push(json!({"pre":pre,"dials":[[h, e, 0]],"bound":tier.pick(1, 2),"fate_budget":24}));
+                u.push(json!({"pre":pre,"limit":1,"dials":[[h, e, 0]],"bound":tier.pick(0, 1),"fate_budget":24}));
             }
         }
         for (h1, e1) in &kinds {
